@@ -259,7 +259,11 @@ class CodeBase:
             base's listed directories and does not match any exclude
             pattern(s).
         """
-        path = Path(path).resolve()
+        # A path that runs into a symbolic link loop does not name a file.
+        try:
+            path = Path(path).resolve()
+        except RuntimeError:
+            return False
 
         # Files that don't exist aren't part of the code base.
         if not path.exists():
